@@ -1,11 +1,12 @@
 //@ property: C15
 //@ unit: c15_commitment tier=quick
-//@ clause: ControlBlock::verify_taproot_commitment folds the merkle branch from TapLeafHash(script, leaf version) with the sorted-pair TapBranch hash and returns libsecp's verdict on tweak_add_check(internal key, output key, parity, H_TapTweak(internal key ‖ root)); hence for every leaf of a well-formed node the control block (internal key, parity, that leaf's stored branch) verifies iff libsecp confirms the tweak by H_TapTweak(internal ‖ node hash)
+//@ clause: ControlBlock::verify_taproot_commitment folds the merkle branch from TapLeafHash(script, leaf version) with the sorted-pair TapBranch/elements hash and returns libsecp's verdict on tweak_add_check(internal key, output key, parity, H_TapTweak(internal key ‖ root)); tap_tweak / new_key_spend set output key = internal key tweaked by H_TapTweak(internal key ‖ merkle root); composed: for every leaf of a well-formed node the control block (that leaf's version and stored branch) verifies iff libsecp confirms that tweak, and it does verify against the key/parity new_key_spend computes (libsecp add_tweak/tweak_add_check consistency assumed); ControlBlock::size = 33 + 32*depth
 use vstd::prelude::*;
 verus! {
 //@include inc/c15_taproot_env.rs
 //@include inc/c15_node_fns.rs
 
+// ---- real definitions, extracted verbatim -----------------------------------------------------------------------------
 //@extract file=src/taproot.rs item="pub struct ControlBlock"
 //@end
 //@extract file=src/taproot.rs item="pub const TAPROOT_CONTROL_NODE_SIZE"
@@ -14,30 +15,49 @@ verus! {
 //@end
 //@extract file=src/taproot.rs item="pub enum TaprootError"
 //@end
+use std::collections::{BTreeMap, BTreeSet};
+//@extract file=src/taproot.rs item="type ScriptMerkleProofMap"
+//@end
+//@extract file=src/taproot.rs item="pub struct TaprootSpendInfo"
+//@end
+// derived `Clone` of TaprootMerkleBranch (attribute, assumed)
+impl Clone for TaprootMerkleBranch { #[verifier::external_body] fn clone(&self) -> (r: Self) ensures r == *self { unimplemented!() } }
 
+// ---- specification, from the property text ---------------------------------------------------------------------------
+/// "the tagged hash of the internal key and the merkle root" (key only when there is no script tree)
+spec fn tweak_hash_spec(internal: Seq<u8>, root: Option<TapNodeHash>) -> Seq<u8> {
+    match root { Some(h) => h_tweak(internal + h@), None => h_tweak(internal) }
+}
+/// what a control block commits to: the merkle root reached from (script, leaf version) along its branch
+spec fn cb_root(cb: ControlBlock, script: Script) -> Seq<u8> {
+    fold_path(tap_leaf_hash(script, cb.leaf_version), branch_seq(cb.merkle_branch))
+}
+spec fn cb_tweak(cb: ControlBlock, script: Script) -> Seq<u8> { h_tweak(cb.internal_key@ + cb_root(cb, script)) }
+/// the tweak is a valid scalar and the tweaked point is not the point at infinity. Both fail only with negligible
+/// probability; the code `.expect()`s them ("statistically extremely unlikely to panic"), so panic-freedom of the
+/// functions below is relative to this precondition.
+spec fn tweakable(internal: Seq<u8>, root: Option<TapNodeHash>) -> bool {
+    scalar_in_range(tweak_hash_spec(internal, root)) && tweak_add_ok(internal, tweak_hash_spec(internal, root))
+}
+
+// ---- the real functions ----------------------------------------------------------------------------------------------
 impl TapTweakHash {
 //@extract file=src/taproot.rs fn=from_key_and_tweak in="impl TapTweakHash"
 //@ret r
 //@spec
 //@|     ensures r@ == tweak_hash_spec(internal_key@, merkle_root)
 //@end
-}
-impl TapTweakHash {
 //@extract file=src/taproot.rs fn=to_scalar in="impl TapTweakHash"
 //@ret r
 //@spec
-//@|     requires scalar_in_range(self@)      // "This is statistically extremely unlikely to panic."
+//@|     requires scalar_in_range(self@)
 //@|     ensures r@ == self@
 //@end
 }
-/// the tweak is a valid scalar and the tweaked point is not the point at infinity (both fail with negligible probability;
-/// the code `.expect()`s them)
-spec fn tweakable(internal: Seq<u8>, root: Option<TapNodeHash>) -> bool {
-    scalar_in_range(tweak_hash_spec(internal, root)) && tweak_add_ok(internal, tweak_hash_spec(internal, root))
-}
 // `impl TapTweak for UntweakedPublicKey` (src/schnorr.rs): the trait method body is extracted into an inherent impl of the
 // (environment) key type, because a precondition cannot be attached to an impl of a trait whose declaration is extracted
-// verbatim. Callers (`internal_key.tap_tweak(secp, root)`) resolve to it unchanged.
+// verbatim. Callers (`internal_key.tap_tweak(secp, root)`) resolve to it unchanged. Its `debug_assert!` is a proof
+// obligation here (discharged by the assumed libsecp consistency of add_tweak and tweak_add_check).
 impl secp256k1_zkp::XOnlyPublicKey {
 //@extract file=src/schnorr.rs fn=tap_tweak in="impl TapTweak for UntweakedPublicKey"
 //@ret r
@@ -48,24 +68,28 @@ impl secp256k1_zkp::XOnlyPublicKey {
 //@|         tweak_check_spec(self@, r.0.0@, r.1 is Odd, tweak_hash_spec(self@, merkle_root)),
 //@end
 }
+impl TaprootSpendInfo {
+//@extract file=src/taproot.rs fn=new_key_spend in="impl TaprootSpendInfo"
+//@ret r
+//@spec
+//@|     requires tweakable(internal_key@, merkle_root)
+//@|     ensures
+//@|         r.internal_key == internal_key, r.merkle_root == merkle_root,
+//@|         (r.output_key.0@, r.output_key_parity is Odd) == tweak_add_spec(internal_key@, tweak_hash_spec(internal_key@, merkle_root)),
+//@|         tweak_check_spec(internal_key@, r.output_key.0@, r.output_key_parity is Odd, tweak_hash_spec(internal_key@, merkle_root)),
+//@end
+//@extract file=src/taproot.rs fn=tap_tweak in="impl TaprootSpendInfo"
+//@ret r
+//@spec
+//@|     ensures r@ == tweak_hash_spec(self.internal_key@, self.merkle_root)
+//@end
+}
 impl TaprootMerkleBranch {
 //@extract file=src/taproot.rs fn=as_inner in="impl TaprootMerkleBranch"
 //@ret r
 //@spec
 //@|     ensures r@ == self.0@
 //@end
-}
-
-spec fn tweak_hash_spec(internal: Seq<u8>, root: Option<TapNodeHash>) -> Seq<u8> {
-    match root { Some(h) => h_tweak(internal + h@), None => h_tweak(internal) }
-}
-/// what a control block commits to: the merkle root reached from (script, leaf version) along its branch
-spec fn cb_root(cb: ControlBlock, script: Script) -> Seq<u8> {
-    fold_path(tap_leaf_hash(script, cb.leaf_version), branch_seq(cb.merkle_branch))
-}
-spec fn cb_tweak(cb: ControlBlock, script: Script) -> Seq<u8> { h_tweak(cb.internal_key@ + cb_root(cb, script)) }
-
-impl TaprootMerkleBranch {
 //@extract file=src/taproot.rs fn=from_inner in="impl TaprootMerkleBranch"
 //@ret r
 //@spec
@@ -78,7 +102,7 @@ impl ControlBlock {
 //@ret r
 //@spec
 //@|     requires self.merkle_branch.0@.len() <= 128
-//@|     ensures r == 33 + 32 * self.merkle_branch.0@.len()      // "the length implied by the leaf's depth"
+//@|     ensures r == 33 + 32 * self.merkle_branch.0@.len()
 //@end
 //@extract file=src/taproot.rs fn=verify_taproot_commitment in="impl ControlBlock"
 //@ret r
@@ -107,35 +131,12 @@ impl ControlBlock {
 //@end
 }
 
-// ---- the output key: TaprootSpendInfo::new_key_spend -------------------------------------------------------------
-use std::collections::{BTreeMap, BTreeSet};
-//@extract file=src/taproot.rs item="type ScriptMerkleProofMap"
-//@end
-//@extract file=src/taproot.rs item="pub struct TaprootSpendInfo"
-//@end
-impl TaprootSpendInfo {
-//@extract file=src/taproot.rs fn=new_key_spend in="impl TaprootSpendInfo"
-//@ret r
-//@spec
-//@|     requires tweakable(internal_key@, merkle_root)
-//@|     ensures
-//@|         r.internal_key == internal_key, r.merkle_root == merkle_root,
-//@|         (r.output_key.0@, r.output_key_parity is Odd) == tweak_add_spec(internal_key@, tweak_hash_spec(internal_key@, merkle_root)),
-//@|         tweak_check_spec(internal_key@, r.output_key.0@, r.output_key_parity is Odd, tweak_hash_spec(internal_key@, merkle_root)),
-//@end
-//@extract file=src/taproot.rs fn=tap_tweak in="impl TaprootSpendInfo"
-//@ret r
-//@spec
-//@|     ensures r@ == tweak_hash_spec(self.internal_key@, self.merkle_root)
-//@end
-}
-
 // ---- clients: the property's positive direction, composed from the contracts above --------------------------------
-// (only the `ensures` of combine / new_leaf_with_ver / verify_taproot_commitment are visible here)
+// (modular: only the `ensures` of combine / new_leaf_with_ver / new_key_spend / verify_taproot_commitment are visible)
 
 /// For a well-formed node and ANY of its leaves: a control block that carries that leaf's version and stored merkle
 /// branch (what TaprootSpendInfo::control_block assembles from the script map filled by from_node_info) commits to
-/// exactly the node's hash, for whatever internal key and parity.
+/// exactly the node's hash, for whatever internal key and parity; its serialized size is 33 + 32*depth <= 33 + 32*128.
 proof fn lemma_leaf_control_block_commits(n: NodeInfo, i: int, cb: ControlBlock)
     requires node_wf(n), 0 <= i < n.leaves@.len(),
         cb.leaf_version == n.leaves@[i].ver, cb.merkle_branch.0@ == n.leaves@[i].merkle_branch.0@,
@@ -148,11 +149,8 @@ proof fn lemma_leaf_control_block_commits(n: NodeInfo, i: int, cb: ControlBlock)
     assert(branch_seq(cb.merkle_branch) =~= branch_seq(n.leaves@[i].merkle_branch));
 }
 
-// derived `Clone` of TaprootMerkleBranch (attribute, assumed)
-impl Clone for TaprootMerkleBranch { #[verifier::external_body] fn clone(&self) -> (r: Self) ensures r == *self { unimplemented!() } }
-
-/// Executable client: verify leaf `i` of a well-formed node against an output key. The verdict is libsecp's verdict
-/// on the tweak of the internal key by H_TapTweak(internal key ‖ node hash) -- nothing else about the tree matters.
+/// Verify leaf `i` of a well-formed node against an output key. The verdict is libsecp's verdict on the tweak of the
+/// internal key by H_TapTweak(internal key ‖ node hash) -- nothing else about the tree matters.
 fn client_verify_leaf<C: secp256k1_zkp::Verification>(
     secp: &Secp256k1<C>, n: &NodeInfo, i: usize,
     internal_key: UntweakedPublicKey, parity: secp256k1_zkp::Parity, output_key: &TweakedPublicKey,
@@ -163,11 +161,26 @@ fn client_verify_leaf<C: secp256k1_zkp::Verification>(
     let l = &n.leaves[i];
     let cb = ControlBlock { leaf_version: l.ver, output_key_parity: parity, internal_key, merkle_branch: l.merkle_branch.clone() };
     proof { lemma_leaf_control_block_commits(*n, i as int, cb); }
+    let sz = cb.size();
+    assert(sz == 33 + 32 * l.merkle_branch.0@.len());
     cb.verify_taproot_commitment(secp, output_key, &l.script)
 }
 
-/// Executable client building the three-leaf tree  ((s0, s1), s2)  from scratch: node_wf is established by the leaf
-/// constructor and kept by combine (which cannot refuse at depth 2).
+/// End to end, for ANY well-formed tree and ANY of its leaves (relative to the ASSUMED libsecp consistency of
+/// add_tweak and tweak_add_check): the output key and parity that new_key_spend computes for the tree's root accept the
+/// leaf's control block.
+fn client_end_to_end<C: secp256k1_zkp::Verification>(
+    secp: &Secp256k1<C>, n: &NodeInfo, i: usize, internal_key: UntweakedPublicKey,
+) -> (r: bool)
+    requires node_wf(*n), i < n.leaves@.len(), tweakable(internal_key@, Some(n.hash))
+    ensures r
+{
+    let info = TaprootSpendInfo::new_key_spend(secp, internal_key, Some(n.hash));
+    client_verify_leaf(secp, n, i, internal_key, info.output_key_parity, &info.output_key)
+}
+
+/// The three-leaf tree  ((s0, s1), s2)  built from scratch: node_wf is established by the leaf constructor and kept by
+/// combine (which cannot refuse at depth 2), so the precondition of the clients above is reachable.
 fn build_three(s0: Script, s1: Script, s2: Script, v: LeafVersion) -> (root: NodeInfo)
     ensures node_wf(root), root.leaves@.len() == 3,
         root.leaves@[0].script == s0 && root.leaves@[1].script == s1 && root.leaves@[2].script == s2,
@@ -193,25 +206,7 @@ fn build_three(s0: Script, s1: Script, s2: Script, v: LeafVersion) -> (root: Nod
         Err(_) => { assert(false); unreached() }
     }
 }
-
-/// Each of the three leaves verifies against ANY output key exactly when libsecp confirms the tweak by
-/// H_TapTweak(internal key ‖ root).
 fn client_three_leaves<C: secp256k1_zkp::Verification>(
-    secp: &Secp256k1<C>, s0: Script, s1: Script, s2: Script, v: LeafVersion, i: usize,
-    internal_key: UntweakedPublicKey, parity: secp256k1_zkp::Parity, output_key: &TweakedPublicKey,
-) -> (r: bool)
-    requires i < 3,
-        scalar_in_range(h_tweak(internal_key@ + pair_hash(pair_hash(tap_leaf_hash(s0, v), tap_leaf_hash(s1, v)), tap_leaf_hash(s2, v)))),
-    ensures r == tweak_check_spec(internal_key@, output_key.0@, parity is Odd,
-        h_tweak(internal_key@ + pair_hash(pair_hash(tap_leaf_hash(s0, v), tap_leaf_hash(s1, v)), tap_leaf_hash(s2, v))))
-{
-    let root = build_three(s0, s1, s2, v);
-    client_verify_leaf(secp, &root, i, internal_key, parity, output_key)
-}
-
-/// End to end (relative to the ASSUMED libsecp consistency add_tweak/tweak_add_check): the output key and parity
-/// computed by new_key_spend for the tree's root accept the control block of every leaf.
-fn client_end_to_end<C: secp256k1_zkp::Verification>(
     secp: &Secp256k1<C>, s0: Script, s1: Script, s2: Script, v: LeafVersion, i: usize, internal_key: UntweakedPublicKey,
 ) -> (r: bool)
     requires i < 3,
@@ -220,8 +215,7 @@ fn client_end_to_end<C: secp256k1_zkp::Verification>(
     ensures r
 {
     let root = build_three(s0, s1, s2, v);
-    let info = TaprootSpendInfo::new_key_spend(secp, internal_key, Some(root.hash));
-    client_verify_leaf(secp, &root, i, internal_key, info.output_key_parity, &info.output_key)
+    client_end_to_end(secp, &root, i, internal_key)
 }
 
 // vacuity canaries (each must FAIL): the preconditions used above are satisfiable and the assumed axioms are not contradictory
@@ -233,7 +227,7 @@ proof fn canary_commitment(cb: ControlBlock, script: Script, x: [u8; 32], y: [u8
     lemma_pair_code(x@, y@); lemma_pair_comm(x@, y@);
 }
 proof fn canary_end_to_end(key: Seq<u8>, n: NodeInfo, i: int)
-    requires node_wf(n), 0 <= i < n.leaves@.len(), scalar_in_range(h_tweak(key + n.hash@)), tweak_add_ok(key, h_tweak(key + n.hash@))
+    requires node_wf(n), 0 <= i < n.leaves@.len(), tweakable(key, Some(n.hash))
     ensures false
 {
     axiom_leaf_vec_len(n.leaves);
